@@ -7,7 +7,7 @@ RULE = ("designed layouts: an enzyme (BsaI / BbsI / BtgZI, each through CutWithE
         "over neighbouring sites, homopolymer / two-letter / random ACGT filler, filler with N / IUPAC codes / U, digits, blanks, accidental sites repaired away), mixed / all-lower / all-upper letter case. "
         "Circular parts: one case = ALL rotations of the plasmid (n <= 300) or the rotations that put the origin at / next to / inside "
         "every site and every cut plus random ones (n > 300); every rotated sequence is produced by the Lean function Spec.rotl. "
-        "Linear parts; case-recasing pairs; `hist` cases (one stored string through circular/linear, directional/non-directional calls in one process). Out-of-domain probes (non-directional, palindromic site, self-overlapping sites and sites overlapping their reverse complement, cuts too close, "
+        "Linear parts; case-recasing pairs; `hist` cases (one stored string through circular/linear, directional/non-directional calls in one process; judged and corresponded per step - only the steps whose call lies inside the quantifier count). Out-of-domain probes (non-directional, palindromic site, self-overlapping sites and sites overlapping their reverse complement, cuts too close, "
         "tiny and empty sequences, unknown enzyme name) are corresponded but not judged. "
         "non-trivial = at least one site occurrence; distinct by case text")
 EXHAUSTIVE = {"quick": False, "thorough": True}
@@ -381,7 +381,7 @@ def cases(seed, tier):
             name, site, skip, oh = c[1], c[2], int(c[3]), int(c[4])
             if name:
                 site, skip, oh = BUILTIN[name]
-            if len(u) >= len(site) and wf(u, site, skip, oh, True):
+            if len(u) >= len(site) and (wf(u, site, skip, oh, True) or r.random() < 0.4):
                 yield ["hist"] + c[1:5] + [c[6]]
 
     # --- larger plasmids, origin at / next to / inside every site and cut
